@@ -56,6 +56,9 @@ PROPS = {
     "C09": dict(pkg="c09", level="exploration",
                 quick=[R(checks=1200)],
                 thorough=[R(checks=6000, shards=16, timeout=1500)]),
+    "C10": dict(pkg="c10", level="exploration",
+                quick=[R(checks=700)],
+                thorough=[R(checks=3000, shards=16, timeout=1800)]),
     "C11": dict(pkg="c11", level="exploration",
                 quick=[R(checks=6000)],
                 thorough=[R(checks=60000, shards=16, timeout=1500)]),
